@@ -165,10 +165,17 @@ pub fn main(args: &crate::Args) {
                         "replay": {"what": "c18_orders::two_table_circuit + poseidon2_air_builders_for_configs", "outcomes": t}}));
                 }
             }
+            // F-C18-1 (repaired in /repo 9b88fce: entries are visited in sorted op-type order): the generic builder, which
+            // accepts both tables, must now pick the same table on every call
+            if generic.len() != 1 {
+                violations.push(json!({"property":"C18","class":"nondeterministic-keygen","kind":"generic-builder-two-tables",
+                    "first_difference": format!("{generic:?}"),
+                    "replay": {"what": "c18_orders::two_table_circuit + poseidon2_air_builders::<_,4>() (one generic builder, two Poseidon2 tables): get_airs_and_degrees_with_prep returns different AIR lists across calls on the same circuit", "outcomes": generic}}));
+            }
             observations.push(json!({"site": "circuit-prover/src/common.rs get_airs_and_degrees_with_prep non_primitive_base.iter",
                 "case": "generic-builder-two-tables", "distinct_outcomes": generic.len(), "outcomes": generic,
                 "per_config_outcomes": per_cfg, "per_config_reversed_outcomes": per_cfg_rev,
-                "meaning": "one generic Poseidon2AirBuilder<4>, two Poseidon2 tables in non_primitive_base: a single dynamic AIR is built and which table it is follows the hash order (P3R.Witness.C18Order.airLoop_order_dependent); with one config-restricted builder per table the list is order-independent (P3R.C18.airLoop_perm)"}));
+                "meaning": "one generic Poseidon2AirBuilder<4>, two Poseidon2 tables in non_primitive_base: a single dynamic AIR is built; before 9b88fce which table it was followed the hash order (P3R.Witness.C18Order.airLoop_order_dependent), the sorted visit makes it the same on every call (P3R.C18.airLoop_sorted); with one config-restricted builder per table the list is order-independent (P3R.C18.airLoop_perm)"}));
         }
         Ok(Err(e)) => observations.push(json!({"case": "generic-builder-two-tables", "skipped": e})),
         Err(_) => observations.push(json!({"case": "generic-builder-two-tables", "skipped": "panic while building the two-table circuit"})),
